@@ -28,6 +28,17 @@ def gen_n(per):
                    0x109: 0xED, 0x10A: 0xB0, 0x10B: 0xED, 0x10C: 0x5F, 0x10D: 0x76}
             lines.append(pipeline.step_line(cid, st, mem=sorted(mem.items()), nsteps=40 + rng.below(20), sched=[(30, 0, [])] if rng.chance(1, 3) else []))
             meta[cid] = ("program", "ldir+halt")
+        # acceptance of a request fetches no opcode: R and I must not change in that Step (every kind, any R incl. bit 7)
+        for j in range(120 if tier == "quick" else 3000):
+            cid = "q%d" % k; k += 1
+            e = rng.choice(cases.encodings())
+            l = cases.make_case(rng, cid, e)
+            l = cases.patch_state(l, R=rng.choice([0x7F, 0xFF, 0x85, 0x05, rng.below(256)]), I=rng.below(256), IFF1=1, IFF2=1, IM=rng.choice([0, 1, 2]))
+            kind = rng.choice([0, 1, 1, 1])
+            data = rng.choice([[0x10], [0x90], [0xFE], [0x00], [0xFF], [0xCD, 0x38, 0x00]])
+            l = cases.with_irq(l, kind, data, at=0)
+            lines.append(cases.set_steps(l, rng.choice([1, 2])))
+            meta[cid] = ("acceptance", "kind=%d" % kind)
         return lines, meta
     return gen
 
